@@ -125,6 +125,12 @@ def rand_scenario(rng, max_hosts=5, big=False, like=None):
                                   prob=rng.choice([0.0, 0.5, 1.0, 1.0, 0.9]),
                                   cost=rng.choice([1, 1.25, 2]),
                                   access=rng.choice([1, 2, 2]))
+    if like is None and rng.random() < 0.3:
+        # the order of the host configurations (= row order of the state tensor, order of the flat action list) is
+        # whatever the scenario lists; nothing requires it to be grouped by subnet or ascending
+        order = list(H)
+        rng.shuffle(order)
+        H = {a_: H[a_] for a_ in order}
     d = {u.SUBNETS: subnets, u.TOPOLOGY: topo, u.OS: os_l, u.SERVICES: svc_l,
          u.PROCESSES: proc_l, u.SENSITIVE_HOSTS: sens, u.EXPLOITS: exploits,
          u.PRIVESCS: privescs,
